@@ -566,9 +566,10 @@ UriBool URI_FUNC(FixAmbiguity)(URI_TYPE(Uri) * uri,
 		UriMemoryManager * memory) {
 	URI_TYPE(PathSegment) * segment;
 
-	if (	/* Case 1: absolute path, empty first segment */
+	if (	/* Case 1: absolute path, empty first segment, more to follow */
 			(uri->absolutePath
 			&& (uri->pathHead != NULL)
+			&& (uri->pathHead->next != NULL)
 			&& (uri->pathHead->text.afterLast == uri->pathHead->text.first))
 
 			/* Case 2: relative path, empty first and second segment */
